@@ -354,7 +354,38 @@ def _is_import(fi: FuncInfo) -> bool:
     return any(isinstance(n, ast.Constant) and n.value == "_history" for n in ast.walk(fi.node))
 
 
+def rule_d(ctx: Context, R: Reporter):
+    """C17.d  the `copy` contract of a setter is the caller's, for every entry: a method of the state class that takes a
+    `copy` parameter does not re-bind it inside a loop from something that varies with the loop (the value just
+    handled): the flag computed for one entry would then decide for the entries that follow, and arrays after the
+    first scalar are stored by reference although copy=True was requested."""
+    sc = ctx.state.state_cls
+    n = 0
+    for m in sc.methods.values():
+        if "copy" not in m.params:
+            continue
+        n += 1
+        for loop in [x for x in walk_no_nested(m.node) if isinstance(x, (ast.For, ast.While))]:
+            varying = {y.id for y in ast.walk(loop.target) if isinstance(y, ast.Name)} if isinstance(loop, ast.For) else set()
+            for st in loop.body:
+                for y in ast.walk(st):
+                    if isinstance(y, ast.Name) and isinstance(y.ctx, ast.Store):
+                        varying.add(y.id)
+            varying.discard("copy")
+            for st in ast.walk(loop):
+                tg = st.targets if isinstance(st, ast.Assign) else ([st.target] if isinstance(st, (ast.AugAssign, ast.AnnAssign)) else [])
+                if any(isinstance(t, ast.Name) and t.id == "copy" for t in tg) and st.value is not None:
+                    dep = {y.id for y in ast.walk(st.value) if isinstance(y, ast.Name)} & varying
+                    R.check("C17.d", "the caller's copy flag is not overwritten per entry inside the storing loop", not dep, m, st,
+                            msg=f"{m.short}: `{unparse(st)[:60]}` re-binds the `copy` parameter inside the loop from `{sorted(dep)}`: once it is False for one entry (a scalar, None) it stays False "
+                                f"for all the following entries, whose arrays are then stored by reference -- a later change of the caller's array changes the current state and the next "
+                                f"committed batch", key=f"copy-flag-rebound:{m.short}")
+    R.check("C17.d", "setters with a copy parameter scanned", True, None, None, key="copy-flag-scan")
+    R.floor("C17.d", "state-class methods with a copy parameter", n, 2)
+
+
 def run(ctx: Context, R: Reporter):
+    R.guard(rule_d, ctx, R)
     F = Freshness(ctx)
     R.guard(rule_a, ctx, R, F)
     R.guard(rule_b, ctx, R, F)
@@ -367,6 +398,8 @@ def variants():
     sm = "tempest/state_manager.py"
     core = "tempest/core.py"
     return [
+        Variant("d-copy-flag-carried-over-entries", "bad", replace_stmt(sm, "StateManager.update_current", "self._current[key] = self._ensure_copy(value) if copy else value", "copy = copy and isinstance(value, np.ndarray)\nself._current[key] = value.copy() if copy else value"), ["C17.d"], quick=True),
+        Variant("d-benign-per-entry-flag", "benign", replace_stmt(sm, "StateManager.update_current", "self._current[key] = self._ensure_copy(value) if copy else value", "copy_this = copy and isinstance(value, np.ndarray)\nself._current[key] = value.copy() if copy_this else value")),
         Variant("c-validate-while-appending", "bad", insert_after(sm, "StateManager.commit_current_to_history", "value = self._current[current_key]", "if strict and value is None:\n    raise ValueError('missing')"), ["C17.c"], quick=True),
         Variant("a-get-current-no-copy", "bad", replace_expr(sm, "StateManager.get_current", "self._ensure_copy(value)", "value"), ["C17.a"], quick=True),
         Variant("a-get-history-index-no-copy", "bad", replace_expr(sm, "StateManager.get_history", "self._ensure_copy(self._history[key][index])", "self._history[key][index]"), ["C17.a"]),
